@@ -1647,7 +1647,33 @@ def rule_r10(ctx) -> List[R.Inst]:
                             f"tempo events after the last note are never consumed: their tempo points keep the time 0 they were created with",
                             construct=f"no loop over {ev_list}[{ix} + 1:] after the sweep"))
     else:
-        insts.append(R.ok(rid, "sweep:trailing", file, trailing.lineno, idiom=f"remaining events {ev_list}[next:] are timed after the sweep"))
+        # the trailing loop continues the same integration: every running quantity the sweep advances per tempo event (time, position,
+        # tempo) is advanced per trailing event too — otherwise the SECOND event after the last note is timed from the state of the first
+        def _stored(stmts):
+            out = set()
+            for st_ in stmts:
+                for x in ast.walk(st_):
+                    if isinstance(x, (ast.Assign, ast.AugAssign)):
+                        for t_ in (x.targets if isinstance(x, ast.Assign) else [x.target]):
+                            if isinstance(t_, ast.Name):
+                                out.add(t_.id)
+            return out
+        loopvars = {x.id for x in ast.walk(trailing.target) if isinstance(x, ast.Name)} if isinstance(trailing, ast.For) else set()
+        in_sweep = {v for v in _stored(wh.body) if v != ix and v not in loopvars and
+                    any(isinstance(x, ast.Name) and x.id == v and isinstance(x.ctx, ast.Load) for st_ in wh.body for x in ast.walk(st_))}
+        # (only the quantities the per-event step itself reads: offset, measure, bpm_val — not the event alias)
+        ev_alias = {t_.id for st_ in wh.body if isinstance(st_, ast.Assign) and isinstance(st_.value, ast.Subscript) and unparse(st_.value.value) == ev_list
+                    for t_ in st_.targets if isinstance(t_, ast.Name)}
+        in_sweep -= ev_alias
+        missing = sorted(in_sweep - _stored(trailing.body))
+        if missing and isinstance(trailing, ast.For):
+            insts.append(R.viol(rid, "sweep:trailing", file, trailing.lineno,
+                                f"the sweep advances {sorted(in_sweep)} at every tempo event, the loop over the events after the last note does not "
+                                f"advance {missing}: the first trailing event is timed correctly, every later one from the stale state (its "
+                                f"time ignores the tempo events between)", construct=f"trailing loop leaves {missing} unchanged"))
+        else:
+            insts.append(R.ok(rid, "sweep:trailing", file, trailing.lineno, idiom=f"remaining events {ev_list}[next:] are timed after the sweep, "
+                                                                                   f"advancing {sorted(in_sweep)} like the sweep"))
     return insts
 
 
